@@ -9,7 +9,8 @@ package main
 //     wrap   gz = gzip_packed alone | rpc = rpc_result{gzip_packed}
 //     value  the object that is packed (text form of x_tlval.go)
 //     big    - | k:n[,k:n]  - value parameter k (string or bytes) of the top-level object holds n bytes (i%251)
-//            instead of what the text says, so that no 16 MiB line crosses a pipe
+//            instead of what the text says, so that no 16 MiB line crosses a pipe; k.j:n - element j of the
+//            Vector<string> / Vector<bytes> that value parameter k holds (c02.big, c02big.go)
 //
 // Go side: tl.Marshal of the value (the line carries length and digest of these bytes; the Lean side answers
 // with those of the schema-defined serialisation), packed by compress/gzip and wrapped by hand from the two
@@ -61,12 +62,27 @@ func c02GzValue(val, big string) (v reflect.Value, ok bool) {
 		if c < 1 {
 			return v, false
 		}
-		k, err1 := strconv.Atoi(kn[:c])
+		// k:n = value parameter k; k.j:n = element j of the vector that value parameter k holds
+		ks, j := kn[:c], -1
+		if dot := strings.Index(ks, "."); dot > 0 {
+			jj, err := strconv.Atoi(ks[dot+1:])
+			if err != nil || jj < 0 {
+				return v, false
+			}
+			ks, j = ks[:dot], jj
+		}
+		k, err1 := strconv.Atoi(ks)
 		n, err2 := strconv.Atoi(kn[c+1:])
 		if err1 != nil || err2 != nil || k < 0 || k >= len(idx) || n < 0 || n > 1<<25 {
 			return v, false
 		}
 		f := st.Field(idx[k])
+		if j >= 0 {
+			if f.Kind() != reflect.Slice || f.Type() == tBytes || j >= f.Len() {
+				return v, false
+			}
+			f = f.Index(j)
+		}
 		pat := parseBytes("p" + strconv.Itoa(n))
 		switch {
 		case f.Kind() == reflect.String:
